@@ -218,7 +218,9 @@ DispatchFxN(b, e, ce, ch, cb, inside, E0, isNew, ty, lvl, n) ==
       E4 == IF ok /\ ch # "" /\ inside /\ ce # 0 /\ ce # e /\ HasRes(E3[ce], ch, cb) THEN [E3 EXCEPT ![ce] = AddKid(@, ch, cb, e)] ELSE E3
       H1 == IF ok THEN [Hins EXCEPT ![b] = Evict(E4, b, @)] ELSE Hins
   IN [out |-> IF capRej THEN "rej_capacity" ELSE IF shutRej THEN "rej_shutdown" ELSE IF fullRej THEN "rej_full" ELSE "ok",
-      E |-> E4, Q |-> Q1, U |-> U1, H |-> H1, R |-> R1, T |-> T1]
+      E |-> E4, Q |-> Q1, U |-> U1, H |-> H1, R |-> R1, T |-> T1,
+      \* an accepted event marks the bus busy at once (fix: G11): the idle flag must not outlive the moment the run loop takes the event
+      I |-> IF ok THEN [idle EXCEPT ![b] = FALSE] ELSE idle]
 
 DispatchFx(b, e, ce, ch, cb, inside, E0, isNew, ty, lvl) == DispatchFxN(b, e, ce, ch, cb, inside, E0, isNew, ty, lvl, -1)
 
@@ -354,7 +356,7 @@ OwnerNext(t) ==
      THEN \* a forwarding handler is other_bus.dispatch called synchronously with the handler context set
           LET E1 == [ev EXCEPT ![e] = SetRes(@, h.id, b, "started", "", "none")]
               d == DispatchFx(h.to, e, e, h.id, b, TRUE, E1, FALSE, ev[e].ty, ev[e].lvl)
-          IN /\ ev' = d.E /\ q' = d.Q /\ unf' = d.U /\ hist' = d.H /\ running' = d.R
+          IN /\ ev' = d.E /\ q' = d.Q /\ unf' = d.U /\ hist' = d.H /\ running' = d.R /\ idle' = d.I
              /\ task' = [d.T EXCEPT ![t].pc = "fwdret", ![t].todo = Tail(@), ![t].fh = h.id, ![t].fa = 0, ![t].out = d.out]
              /\ cur' = t
              /\ nact' = nact
@@ -370,7 +372,7 @@ OwnerNext(t) ==
           /\ xh' = IF match THEN [xh EXCEPT ![k].st = "got", ![k].e = e] ELSE xh
           /\ task' = [task EXCEPT ![t].pc = "mon", ![t].todo = Tail(@), ![t].fh = h.id, ![t].fa = 0]
           /\ cur' = NoTask
-          /\ UNCHANGED <<q, unf, hist, running, nact, o>>
+          /\ UNCHANGED <<q, unf, hist, running, idle, nact, o>>
      ELSE IF h.kind = "sync"
      THEN \* sync scenario handler: called in place, in the owner's task and stretch, with the handler context set (HEnter line)
           /\ nact < MaxAct
@@ -382,7 +384,7 @@ OwnerNext(t) ==
              /\ cur' = t
              /\ o' = Obs(Line("HEnter") @@ [act |-> a, b |-> b, e |-> e, h |-> h.id, byk |-> TaskLabelKind(t), bya |-> IF FrameOwner(t)[1] = "h" THEN FrameOwner(t)[2] ELSE 0,
                                            rb |-> b, sync |-> TRUE, tmo |-> -1], E1, nev, hist, q)
-          /\ UNCHANGED <<q, unf, hist, running>>
+          /\ UNCHANGED <<q, unf, hist, running, idle>>
      ELSE \* async scenario handler: result started, handler task created with a copy of the context, wait_for suspends
           /\ nact < MaxAct
           /\ ev' = [ev EXCEPT ![e] = SetRes(@, h.id, b, "started", "", "none")]
@@ -391,8 +393,8 @@ OwnerNext(t) ==
                                   ![HT(nact + 1)] = [T0 EXCEPT !.pc = "new", !.b = b, !.e = e, !.h = h.id, !.owner = t, !.bud = Budget,
                                                               !.holds = task[t].holds, !.lvl = ev[e].lvl, !.born = Born + 1]]
           /\ cur' = NoTask
-          /\ UNCHANGED <<q, unf, hist, running, o>>
-  /\ UNCHANGED <<nev, shut, idle, semv, depth, lockq, nx>>
+          /\ UNCHANGED <<q, unf, hist, running, idle, o>>
+  /\ UNCHANGED <<nev, shut, semv, depth, lockq, nx>>
   /\ (Head(task[t].todo).kind # "exp" => UNCHANGED xh)
 
 \* parallel_handlers: one execute_handler task per applicable handler, all created at once; the frame owner awaits them all
@@ -438,10 +440,10 @@ SyncDispatch(t, b, ty) ==
      /\ LET e == nev + 1
             d == DispatchFx(b, e, x.e, x.h, x.b, TRUE, ev, TRUE, ty, x.lvl + 1) IN
         /\ nev' = e
-        /\ ev' = d.E /\ q' = d.Q /\ unf' = d.U /\ hist' = d.H /\ running' = d.R
+        /\ ev' = d.E /\ q' = d.Q /\ unf' = d.U /\ hist' = d.H /\ running' = d.R /\ idle' = d.I
         /\ task' = [d.T EXCEPT ![HT(a)].bud = @ - 1, ![HT(a)].kids = Append(@, IF d.out = "ok" THEN e ELSE 0)]
         /\ o' = Obs(DispLine(b, e, ty, d.out, a, 0, FALSE), d.E, e, d.H, d.Q)
-  /\ UNCHANGED <<shut, idle, semv, depth, lockq, nact, nx, xh, cur>>
+  /\ UNCHANGED <<shut, semv, depth, lockq, nact, nx, xh, cur>>
 SyncFinish(t, out) ==
   /\ InSync(t) /\ out \in {"ret"} \cup (IF WithErrors THEN {"raise"} ELSE {})
   /\ task' = [task EXCEPT ![t].pc = "syncret", ![HT(task[t].fa)].pc = "done", ![HT(task[t].fa)].out = out]
@@ -732,10 +734,10 @@ HDispatch(a, b, ty) ==
   /\ LET x == task[HT(a)]  e == nev + 1
          d == DispatchFx(b, e, x.e, x.h, x.b, TRUE, ev, TRUE, ty, x.lvl + 1) IN
      /\ nev' = e
-     /\ ev' = d.E /\ q' = d.Q /\ unf' = d.U /\ hist' = d.H /\ running' = d.R
+     /\ ev' = d.E /\ q' = d.Q /\ unf' = d.U /\ hist' = d.H /\ running' = d.R /\ idle' = d.I
      /\ task' = [d.T EXCEPT ![HT(a)].bud = @ - 1, ![HT(a)].kids = Append(@, IF d.out = "ok" THEN e ELSE 0)]
      /\ o' = Obs(DispLine(b, e, ty, d.out, a, 0, FALSE), d.E, e, d.H, d.Q)
-  /\ UNCHANGED <<shut, idle, semv, depth, lockq, nact, nx, xh, cur>>
+  /\ UNCHANGED <<shut, semv, depth, lockq, nact, nx, xh, cur>>
 
 \* the handler dispatches its *own* event again (same object), to its own bus or to another one: no new event, no parent / child link
 \* (the dispatcher is the event itself); the event is queued again and every bus it reaches only runs the handlers it has no result for
@@ -743,10 +745,10 @@ HRedispatch(a, b) ==
   /\ InOps(a) /\ task[HT(a)].bud > 0
   /\ LET x == task[HT(a)]  e == x.e
          d == DispatchFx(b, e, x.e, x.h, x.b, TRUE, ev, FALSE, ev[e].ty, ev[e].lvl) IN
-     /\ ev' = d.E /\ q' = d.Q /\ unf' = d.U /\ hist' = d.H /\ running' = d.R
+     /\ ev' = d.E /\ q' = d.Q /\ unf' = d.U /\ hist' = d.H /\ running' = d.R /\ idle' = d.I
      /\ task' = [d.T EXCEPT ![HT(a)].bud = @ - 1]
      /\ o' = Obs(DispLine(b, e, ev[e].ty, d.out, a, 0, FALSE), d.E, nev, d.H, d.Q)
-  /\ UNCHANGED <<nev, shut, idle, semv, depth, lockq, nact, nx, xh, cur>>
+  /\ UNCHANGED <<nev, shut, semv, depth, lockq, nact, nx, xh, cur>>
 
 HSuspend(a, how) ==   \* sleep(0) ("yield") or a timed sleep
   /\ InOps(a) /\ task[HT(a)].bud > 0
@@ -864,19 +866,19 @@ DDispatchN(i, b, ty, n) ==
   /\ DRun(i) /\ nev < MaxEv
   /\ LET e == nev + 1
          d == DispatchFxN(b, e, 0, "", "", FALSE, ev, TRUE, ty, 0, n) IN
-     /\ nev' = e /\ ev' = d.E /\ q' = d.Q /\ unf' = d.U /\ hist' = d.H /\ running' = d.R
+     /\ nev' = e /\ ev' = d.E /\ q' = d.Q /\ unf' = d.U /\ hist' = d.H /\ running' = d.R /\ idle' = d.I
      /\ task' = [d.T EXCEPT ![DT(i)].bud = @ - 1, ![DT(i)].kids = Append(@, IF d.out = "ok" THEN e ELSE 0)]
      /\ o' = Obs([DispLine(b, e, ty, d.out, 0, i, FALSE) EXCEPT !.n = n], d.E, e, d.H, d.Q)
-  /\ UNCHANGED <<shut, idle, semv, depth, lockq, nact, nx, xh, cur>>
+  /\ UNCHANGED <<shut, semv, depth, lockq, nact, nx, xh, cur>>
 DDispatch(i, b, ty) == DDispatchN(i, b, ty, -1)
 
 DRedispatch(i, e, b) ==   \* ordinary code dispatches an existing root event (same object) again
   /\ DRun(i) /\ e \in 1..nev /\ ev[e].lvl = 0 /\ ev[e].par = 0
   /\ LET d == DispatchFx(b, e, 0, "", "", FALSE, ev, FALSE, ev[e].ty, 0) IN
-     /\ ev' = d.E /\ q' = d.Q /\ unf' = d.U /\ hist' = d.H /\ running' = d.R
+     /\ ev' = d.E /\ q' = d.Q /\ unf' = d.U /\ hist' = d.H /\ running' = d.R /\ idle' = d.I
      /\ task' = [d.T EXCEPT ![DT(i)].bud = @ - 1]
      /\ o' = Obs([DispLine(b, e, ev[e].ty, d.out, 0, i, FALSE) EXCEPT !.n = ev[e].n], d.E, nev, d.H, d.Q)
-  /\ UNCHANGED <<nev, shut, idle, semv, depth, lockq, nact, nx, xh, cur>>
+  /\ UNCHANGED <<nev, shut, semv, depth, lockq, nact, nx, xh, cur>>
 
 DAwaitBegin(i, k) ==   \* await event from ordinary code: waits on the completion signal
   /\ DRun(i) /\ k \in DOMAIN task[DT(i)].kids /\ task[DT(i)].kids[k] # 0
